@@ -8,7 +8,8 @@ LEVEL = {"C38": "model_checking", "C39": "model_checking", "C37": "exploration"}
 
 # TLC's JVM is started with a parallel collector sized for all cores; on a shared machine that
 # multiplies the wall time. Two GC threads are enough for these models.
-os.environ["JAVA_TOOL_OPTIONS"] = (os.environ.get("JAVA_TOOL_OPTIONS", "") + " -XX:ParallelGCThreads=2").strip()
+if "-XX:ParallelGCThreads" not in os.environ.get("JAVA_TOOL_OPTIONS", ""):
+    os.environ["JAVA_TOOL_OPTIONS"] = (os.environ.get("JAVA_TOOL_OPTIONS", "") + " -XX:ParallelGCThreads=2 -Xmx4g").strip()
 
 # ----------------------------------------------------------------------------- C38
 AST_FILES = ["lang/AstShapes.tla", "lang/MC_AstShapes_expr_q.cfg", "lang/MC_AstShapes_expr_t.cfg",
